@@ -1,7 +1,7 @@
 #!/bin/bash
 # usage: tools/archive_seed.sh <Cxx> <dest-name> "<checks that catch it + keys>"
 id="$1"; name="$2"; caught="$3"
-src=/tmp/seed-out/$id; dst=/verif/seeded/$name
+src=${SEED_OUT:-/tmp/seed-out}/$id; dst=/verif/seeded/$name
 mkdir -p $dst/demo
 cp $src/patch.diff $dst/patch.diff
 cp $src/demo/*.rs $src/demo/RUN.md $dst/demo/ 2>/dev/null
@@ -16,7 +16,7 @@ demo_with=log.split('## demo with patch')[1].split('## demo without patch')[0]
 demo_without=log.split('## demo without patch')[1]
 meta['breaks_property']=pid
 meta['confirmed_by_verifier']={
- "worktree":"/tmp/seed/%s (scratch git worktree of /repo at the pinned commit, removed afterwards)"%pid,
+ "worktree":"scratch worktree for %s (scratch git worktree of /repo at the pinned commit, removed afterwards)"%pid,
  "ran":["git apply patch.diff","cargo test --workspace --offline  (existing suite, with patch)","cargo test -p <crate> --test <demo> --offline  (with patch)","git apply -R patch.diff; same demo (without patch)"],
  "existing_suite_failures_with_patch":suite_fail,
  "demo_with_patch":[l for l in demo_with.strip().splitlines() if l.startswith('test result')],
@@ -26,5 +26,5 @@ meta['caught_by']=caught
 json.dump(meta,open(dst+'/meta.json','w'),indent=1)
 print(dst, meta['confirmed_by_verifier']['existing_suite_failures_with_patch'], meta['confirmed_by_verifier']['demo_with_patch'], meta['confirmed_by_verifier']['demo_without_patch'])
 PY
-git -C /repo worktree remove --force /tmp/seed/$id 2>/dev/null
-rm -rf /tmp/seed-out/$id
+git -C /repo worktree remove --force ${SEED_ROOT:-/tmp/seed}/$id 2>/dev/null
+rm -rf ${SEED_OUT:-/tmp/seed-out}/$id
